@@ -302,6 +302,10 @@ func (g *G) genRepeat(id string) *History {
 		if g.chance(0.05) {
 			v = pick(g, "", "X-A", "*", "X-B")
 		}
+		if strings.Contains(v, "*") && g.chance(0.5) {
+			// the same unusable variant {*} in ever new spellings: the request alphabet does not change
+			v = pick(g, v+", X-N"+strconv.Itoa(i), strings.Repeat("*,", i%7)+"*", v+strings.Repeat(" ", i%5)+",*")
+		}
 		method := "GET"
 		if g.chance(0.04) {
 			method = pick(g, "POST", "DELETE")
